@@ -73,11 +73,12 @@ type Profile struct {
 	// 2031, 2048) that this terminal does not implement: 0 "not recognised" (default) or
 	// 4 "permanently reset" - recognised, can never be set; both mean: do not use it.
 	AbsentModeReply int
-	NoCPR          bool   // never answers DSR 6
-	NoDECRQM       bool   // silent on DECRQM instead of answering 0
-	NoXTGETTCAP    bool   // silent on unknown XTGETTCAP instead of answering 0+r
-	ClipboardReply string // base64 answer to OSC 52 ? ("" = no answer)
-	ProbeOSC66     bool   // classify the start-up OSC 66 probe as a query
+	NoCPR           bool   // never answers DSR 6
+	NoDECRQM        bool   // silent on DECRQM instead of answering 0
+	NoXTGETTCAP     bool   // silent on unknown XTGETTCAP instead of answering 0+r
+	TcapNameOnly    bool   // a boolean capability it has is answered 1+r<name> without "=value" (as kitty does)
+	ClipboardReply  string // base64 answer to OSC 52 ? ("" = no answer)
+	ProbeOSC66      bool   // classify the start-up OSC 66 probe as a query
 }
 
 func (p Profile) Has(c Cap) bool {
@@ -118,6 +119,9 @@ func (p Profile) String() string {
 	}
 	if p.AbsentModeReply != 0 {
 		s += fmt.Sprintf("/absent-modes-answer-%d", p.AbsentModeReply)
+	}
+	if p.TcapNameOnly {
+		s += "/xtgettcap-name-only"
 	}
 	return fmt.Sprintf("%s/v%d/cur%d,%d/cs%d", s, p.Version, p.InitRow, p.InitCol, p.UserCursorStyle)
 }
